@@ -15,6 +15,13 @@ import (
 // ErrInjected is what a faulted write or read returns.
 var ErrInjected = errors.New("injected I/O fault")
 
+// NetErr is an error type whose method dereferences its receiver, as many real error types do;
+// a writer that returns a typed-nil *NetErr hands the renderer a non-nil error interface whose
+// Error method panics.
+type NetErr struct{ Op string }
+
+func (e *NetErr) Error() string { return "net: " + e.Op }
+
 // Writer is a fault-injecting, recording io.Writer.
 type Writer struct {
 	// plan
@@ -22,6 +29,7 @@ type Writer struct {
 	Sticky    bool // all calls >= FailCall fail
 	Partial   bool // the failing call accepts half of its bytes
 	FullCount bool // the failing call accepts all of its bytes and still returns an error
+	TypedNil  bool // the error returned is a typed-nil pointer (its Error method panics)
 	Capacity  int  // total bytes accepted before (n<len, err) for ever; -1 = unlimited
 	FailEmpty bool // zero-length writes fail too once the fault is active
 	// record
@@ -57,6 +65,10 @@ func (w *Writer) Write(p []byte) (int, error) {
 		}
 		w.Accepted = append(w.Accepted, p[:n]...)
 		w.fail()
+		if w.TypedNil {
+			var e *NetErr
+			return n, e
+		}
 		return n, ErrInjected
 	}
 	if w.Capacity >= 0 {
